@@ -353,6 +353,34 @@ def has_not_over(e, bad):
     return has_not_over(e[1], bad) or has_not_over(e[2], bad)
 
 
+def has_apostrophe_constant(q):
+    """the class of C01/C02-memo-key-collision: a FILTER constant containing an apostrophe"""
+    found = [False]
+
+    def ex(e):
+        if e[0] == "cmp":
+            if e[3][0] == "c" and "'" in e[3][1]:
+                found[0] = True
+        elif e[0] == "not":
+            ex(e[1])
+        else:
+            ex(e[1])
+            ex(e[2])
+
+    def walk(e):
+        if e[0] in ("group", "union"):
+            for x in e[1]:
+                walk(x)
+        elif e[0] == "graph":
+            walk(e[2])
+        elif e[0] == "sub":
+            walk(e[1]["where"])
+        elif e[0] == "filter":
+            ex(e[1])
+    walk(q["where"])
+    return found[0]
+
+
 def classify(q):
     """Returns the set of known-class names the query falls in, and whether it is wellscoped."""
     found = set()
